@@ -126,7 +126,9 @@ def imposed_cases(rng, n):
     cases = []
     while len(cases) < n:
         def f():
-            nw = rng.choice([4, 8, 12, 16, 24, 32, 40, 48, rng.randint(2, 52)]); return (rng.random() < 0.6, nw, rng.choice([0, 1, nw // 2, nw - 2, nw - 1, rng.randint(0, nw)]))
+            # (non-negative integer length, as in C08's quantifier: 'smallest' of a format with n_int = -1 and one with n_frac = 0 is an empty word)
+            nw = rng.choice([4, 8, 12, 16, 24, 32, 40, 48, rng.randint(2, 52)]); sg = rng.random() < 0.6
+            return (sg, nw, min(rng.choice([0, 1, nw // 2, nw - 2, nw - 1, rng.randint(0, nw)]), nw - (1 if sg else 0)))
         fxm = f(); fym = f() if rng.random() < 0.5 else fxm
         sizing = rng.choice(['same', 'largest', 'smallest'])
         cx = A.interesting_codes(rng, fxm[0], fxm[1], 1)[0]; cy = A.interesting_codes(rng, fym[0], fym[1], 1)[0]
